@@ -52,6 +52,8 @@ pub struct Session {
     /// waitsendpay calls that lightningd answers late, on demand (stream, request id, part index)
     pub late: Vec<(UnixStream, Value, usize)>,
     pub first_wait: Option<(UnixStream, Value, usize)>,
+    /// while set, nobody reads the plugin's stdout
+    pub pause_out: Arc<std::sync::atomic::AtomicBool>,
     pub rng: Rng,
     pub started: Instant,
     /// crash injection: SIGKILL the plugin right after applying the effect of the k-th
@@ -160,9 +162,15 @@ impl Session {
         let mut child = cmd.spawn().map_err(|e| format!("spawn: {e}"))?;
         let mut stdout = child.stdout.take().unwrap();
         let txo = tx.clone();
+        let pause_out = Arc::new(std::sync::atomic::AtomicBool::new(false));
+        let pause_flag = pause_out.clone();
         std::thread::spawn(move || {
             let mut tmp = [0u8; 65536];
             loop {
+                // lightningd busy elsewhere: it does not read the plugin's stdout for a while
+                while pause_flag.load(std::sync::atomic::Ordering::Relaxed) {
+                    std::thread::sleep(Duration::from_millis(3));
+                }
                 match stdout.read(&mut tmp) {
                     Ok(0) | Err(_) => {
                         let _ = txo.send(Ev::OutEof);
@@ -235,6 +243,7 @@ impl Session {
             held: vec![],
             late: vec![],
             first_wait: None,
+            pause_out,
             rng: Rng::new(n + 1),
             started: Instant::now(),
             kill_at_rpc: None,
@@ -896,7 +905,24 @@ pub fn wire_sessions(bin: &str, seed: u64, sessions: u64) -> Result<E2eResult, S
                     };
                     bytes.extend_from_slice(format!("{}\n\n", doc).as_bytes());
                 }
+                // one session in four: lightningd does not read the plugin's stdout while the
+                // requests arrive (trace logging on: the output pipe fills up), then reads again
+                let stall = i % 4 == 1;
+                if stall {
+                    s.pause_out.store(true, std::sync::atomic::Ordering::Relaxed);
+                    let mut more = vec![];
+                    for k in 0..700u64 {
+                        let id = format!("s{k}");
+                        ids.push(id.clone());
+                        more.extend_from_slice(format!("{}\n\n", json!({"jsonrpc": "2.0", "id": id, "method": "htlc_accepted", "params": forward_request(5000 + k, "00")})).as_bytes());
+                    }
+                    bytes.extend_from_slice(&more);
+                }
                 s.send_raw(&bytes, chunking);
+                if stall {
+                    s.pump_for(Duration::from_millis(600));
+                    s.pause_out.store(false, std::sync::atomic::Ordering::Relaxed);
+                }
                 let idc = ids.clone();
                 let idc_ref = &idc;
                 let wres = s.wait_or_ping(|s| idc_ref.iter().all(|id| s.reply(id).is_some()), Duration::from_secs(20));
